@@ -69,7 +69,7 @@ def model_list():
 def jobs(tier, seed):
     out = []
     for mi in range(len(model_list())):
-        for vc in ['generic', 'zero-cells', 'zero-values']:
+        for vc in ['generic', 'zero-cells', 'zero-values', 'compensated']:
             out.append({'mi': mi, 'vclass': vc, 'tier': tier, 'seed': seed})
     return out
 
@@ -103,6 +103,10 @@ class World:
         self.pots = pots
         self.cliques = cliques
         self.with_marginals = with_marginals
+        if vclass == 'compensated':
+            # +-900*g(a) added to two potentials that share attribute a: the distribution is that of the plain potentials (the
+            # reference), but slices of single clique tables lie ~1800 nats apart
+            self.pots = S.compensate(self.attrs, self.sizes, pots, K=900.0)
         self.model = self.fresh_model()
         self.joint = O.explicit_joint(self.attrs, self.sizes, pots, total)
 
